@@ -375,7 +375,7 @@ func (tr *Tr) doAppend(st *State, et types.Type, s, e Sl) Value {
 	inPlace := tr.nameBool("apin", sLe(newLen, s.Cap))
 	fresh := tr.freshRef(st, "apnew")
 	freshCap := tr.freshSym("apcap", false)
-	tr.sc.fact(fmt.Sprintf("(and (<= %s %s) (<= %s 4611686018427387904))", newLen, freshCap, freshCap))
+	tr.sc.fact(fmt.Sprintf("(and (<= %s %s) (<= %s 2147483648))", newLen, freshCap, freshCap))
 	rArr := sIte(inPlace, s.Arr, fresh)
 	rOff := sIte(inPlace, s.Off, "0")
 	rCap := sIte(inPlace, s.Cap, freshCap)
